@@ -53,7 +53,7 @@ func unlockKey(pk types.PublicKey) types.UnlockKey {
 // lockHeight/lockTime: a height / time that has already passed (locks are
 // generated satisfied-or-soon-satisfied by the caller's choice).
 func (w *Wallet) NewRecipe(v2ok bool, curHeight uint64, curTime time.Time) *Recipe {
-	kinds := []string{"uc1", "uc1", "uc2of3", "uclock", "uc0", "uc2of70"}
+	kinds := []string{"uc1", "uc1", "uc2of3", "uclock", "uc0", "uc2of70", "ucalien"}
 	if v2ok {
 		kinds = append(kinds, "pk", "pk", "thresh", "above", "after", "hash")
 	}
@@ -95,6 +95,15 @@ func (w *Wallet) NewRecipeKind(kind string, curHeight uint64, curTime time.Time)
 		}
 		r.Keys = []types.PrivateKey{ks[a], ks[b]}
 		r.UCKeyIdx = []uint64{uint64(a), uint64(b)}
+	case "ucalien":
+		// one key of an algorithm core does not know: any signature is accepted for it (v1 and v2),
+		// but every other rule (timelocks, covered fields, counts) still applies
+		key := make([]byte, 32)
+		w.rng.Read(key)
+		uc := types.UnlockConditions{SignaturesRequired: 1, PublicKeys: []types.UnlockKey{{Algorithm: types.NewSpecifier("lamport"), Key: key}}}
+		r.UC = &uc
+		r.Keys = []types.PrivateKey{w.key()} // signs something; the bytes are irrelevant
+		r.UCKeyIdx = []uint64{0}
 	case "uc2of70":
 		// a wide multisig: the two signers sit at key indices beyond 63 (bookkeeping per key index must not be 64 bits wide)
 		uc := types.UnlockConditions{SignaturesRequired: 2}
